@@ -414,7 +414,7 @@ func genSeqOps(g *Rand, fl seqFlavour, nslots, n int, thorough bool) []SOp {
 			genMeta(g, &op, nslots, fl)
 		case "cancel":
 			op.K = g.Intn(8)
-			op.Var = g.Weighted(6, 2, 1)
+			op.Var = g.Weighted(6, 2, 1, 0, 2) // own pending / somebody else's / unknown / (3: other realm) / 4: an earlier request of its own that is finished or was refused
 			if fl == seqC11 && g.Chance(1, 4) {
 				op.Var = 3
 			}
